@@ -78,7 +78,7 @@ PROPS = {
                     "cap == len so that an out-of-range slice expression faults exactly when the length check says so",
             "assumptions": ["parsers outside the repository (encoding/asn1, protobuf, flynn/noise, quic-go, x/crypto/ssh) are fuzzed through the "
                             "streams but not modelled"]},
-    "C02": {"streams": [_KE_STREAM], "oracles": ["ke"], "rule": _KE_RULE, "assumptions": _KE_ASSUME,
+    "C02": {"streams": [_KE_STREAM, {"name": "replay", "quick": 60000, "thorough": 2000000, "thorough_seeds": 2, "stateful": True, "seq_start": "rp-new"}], "oracles": ["ke"], "rule": _KE_RULE, "assumptions": _KE_ASSUME,
             "oracle_n": {"quick": 3000, "thorough": 60000}},
     "C03": {"streams": [_KE_STREAM], "oracles": ["ke"], "rule": _KE_RULE, "assumptions": _KE_ASSUME,
             "oracle_n": {"quick": 3000, "thorough": 60000}},
